@@ -442,7 +442,7 @@ class Super:
     # ------------------------------------------------------------------ value resolution through contexts
     def resolve(self, ctx, term, depth=0):
         """Replace parameters / upvars of spliced bodies by the caller's terms (best effort)."""
-        if depth > 40 or ctx is None:
+        if depth > 40 or ctx is None or ctx is getattr(self, "_stop", None):
             return term
         k = term[0]
         if k == "param":
@@ -550,6 +550,14 @@ class Super:
         if k == "field":
             return ("field", self._subst_params(term[1], call_t, pbv, par), term[2], term[3])
         return term
+
+    def resolve_to(self, stop, ctx, term):
+        """resolve(), but only up to the context `stop`: the result is a term of stop's body."""
+        self._stop = stop
+        try:
+            return self.resolve(ctx, term)
+        finally:
+            self._stop = None
 
     def trace(self, node, operand):
         """Term of an operand at a node, with parameters resolved through the calling contexts."""
